@@ -538,6 +538,43 @@ Proof.
     repeat split; try reflexivity.
 Qed.
 
+(* OpType::port_kind (ops.rs; text pinned by the scanner): value ports first, then the static port if there is one,
+   then the other port kind.  kind_in / kind_out of Validity.v give the same class of kind for every port the
+   operation has (the loader creates exactly port_count ports). *)
+Definition r_port_kind (nvals : N) (static other : option string) (off : N) : option string :=
+  if (off <? nvals)%N then Some "Value"
+  else if is_some static && (off =? nvals)%N then static
+  else other.
+Lemma nthN_lt_some : forall A (l : list A) i, (i <? lenN l)%N = true -> exists x, nthN l i = Some x.
+Proof.
+  intros A l i H. apply N.ltb_lt in H. unfold nthN, lenN in *.
+  destruct (nth_error l (N.to_nat i)) eqn:E; [eauto|]. apply nth_error_None in E. lia.
+Qed.
+Theorem kind_in_matches : forall o off, (off <? count_in o)%N = true ->
+  kclass (kind_in o off) = r_port_kind (lenN (val_in o)) (rw_static_in (vrow o)) (rw_other_in (vrow o)) off.
+Proof.
+  intros o off H. unfold kind_in, r_port_kind. rewrite H.
+  destruct (static_ports_match o) as (S1 & _). destruct (other_ports_match o) as (O1 & _).
+  rewrite <- S1, <- O1. clear S1 O1.
+  destruct (off <? lenN (val_in o))%N eqn:E1.
+  - destruct (nthN_lt_some _ _ _ E1) as (t & ->). reflexivity.
+  - destruct (static_in o) as [k|]; cbn [is_some kclass andb].
+    + destruct k; cbn [is_some andb]; destruct (off =? lenN (val_in o))%N; reflexivity.
+    + reflexivity.
+Qed.
+Theorem kind_out_matches : forall o off, (off <? count_out o)%N = true ->
+  kclass (kind_out o off) = r_port_kind (lenN (val_out o)) (rw_static_out (vrow o)) (rw_other_out (vrow o)) off.
+Proof.
+  intros o off H. unfold kind_out, r_port_kind. rewrite H.
+  destruct (static_ports_match o) as (_ & S1 & _). destruct (other_ports_match o) as (_ & O1 & _).
+  rewrite <- S1, <- O1. clear S1 O1.
+  destruct (off <? lenN (val_out o))%N eqn:E1.
+  - destruct (nthN_lt_some _ _ _ E1) as (t & ->). reflexivity.
+  - destruct (static_out o) as [k|]; cbn [is_some kclass andb].
+    + destruct k; cbn [is_some andb]; destruct (off =? lenN (val_out o))%N; reflexivity.
+    + reflexivity.
+Qed.
+
 (* ================================================================== 3e. the tag tests of the edge / port rules *)
 Theorem tag_tests_match : forall o,
   (* validate_edge, dominator edge: `ancestor_parent_op.tag() != OpTag::Cfg` *)
